@@ -204,3 +204,135 @@ func VerifHarness_C09_endpoint() {
 	verifAssert("endpoint/decides", allowed || denied)
 	verifAssert("endpoint/verdict-equals-reference", allowed == want)
 }
+
+
+// VerifHarness_C09_directions: ingress and egress of one endpoint carry different policies in the
+// same tiers (enforced in one direction, staged or absent in the other); both rendered endpoint
+// chains are compared with the reference, each against its own direction's policies only.
+func VerifHarness_C09_directions() {
+	shape := verifChoose("shape", verifParam("COUNT", 1200)) * verifParam("STRIDE", 1)
+	digit := func(radix int) int {
+		d := shape % radix
+		shape /= radix
+		return d
+	}
+	// slot: 0 none, 1 staged allow-all, 2.. enforced single rule (range {80-89, all} x 4 actions)
+	slot := func(name string) []*vPolicy {
+		d := digit(10)
+		if d == 0 {
+			return nil
+		}
+		pol := &vPolicy{id: &types.PolicyID{Name: name, Kind: v3.KindGlobalNetworkPolicy}}
+		if d == 1 {
+			pol.staged = true
+			pol.id.Kind = v3.KindStagedGlobalNetworkPolicy
+			pol.rules = []vRule{{rng: 2, action: "allow"}}
+			return []*vPolicy{pol}
+		}
+		d -= 2
+		pol.rules = []vRule{{rng: []int{0, 2}[d%2], action: verifActions[d/2]}}
+		return []*vPolicy{pol}
+	}
+	var dirTiers [2][]vTier // 0 ingress, 1 egress
+	aIn, aOut := slot("tiera.in"), slot("tiera.out")
+	aPass := digit(2) == 1
+	bKind := digit(3)
+	hasProfile := digit(2) == 1
+	mk := func(name string, pass bool, pols []*vPolicy) vTier {
+		t := vTier{name: name, passByDef: pass}
+		for _, p := range pols {
+			t.groups = append(t.groups, []*vPolicy{p})
+		}
+		return t
+	}
+	bPol := func(name string) []*vPolicy {
+		switch bKind {
+		case 0:
+			return nil
+		case 1:
+			return []*vPolicy{{id: &types.PolicyID{Name: name, Kind: v3.KindGlobalNetworkPolicy}, rules: []vRule{{rng: 2, action: "allow"}}}}
+		}
+		return []*vPolicy{{id: &types.PolicyID{Name: name, Kind: v3.KindGlobalNetworkPolicy}, rules: []vRule{{rng: 1, action: "allow"}}}}
+	}
+	dirTiers[0] = []vTier{mk("tiera", aPass, aIn), mk("tierb", false, bPol("tierb.in"))}
+	dirTiers[1] = []vTier{mk("tiera", aPass, aOut), mk("tierb", false, bPol("tierb.out"))}
+	prof := []vRule{{rng: 2, action: "allow"}}
+
+	rr := verifRenderer()
+	cm := map[string][]generictables.Rule{}
+	add := func(cs []*generictables.Chain) {
+		for _, c := range cs {
+			if c != nil {
+				cm[c.Name] = c.Rules
+			}
+		}
+	}
+	var tpg []TierPolicyGroups
+	for ti := 0; ti < 2; ti++ {
+		tg := TierPolicyGroups{Name: dirTiers[0][ti].name, DefaultAction: string(v3.Deny)}
+		if dirTiers[0][ti].passByDef {
+			tg.DefaultAction = string(v3.Pass)
+		}
+		for dir := 0; dir < 2; dir++ {
+			for _, g := range dirTiers[dir][ti].groups {
+				pg := &PolicyGroup{Direction: PolicyDirectionInbound, Selector: "all()"}
+				if dir == 1 {
+					pg.Direction = PolicyDirectionOutbound
+				}
+				for _, pol := range g {
+					pg.Policies = append(pg.Policies, pol.id)
+					pp := &proto.Policy{Tier: tg.Name}
+					for _, r := range pol.rules {
+						if dir == 0 {
+							pp.InboundRules = append(pp.InboundRules, r.proto())
+						} else {
+							pp.OutboundRules = append(pp.OutboundRules, r.proto())
+						}
+					}
+					add(rr.PolicyToIptablesChains(pol.id, pp, 4))
+				}
+				if !pg.ShouldBeInlined() {
+					add(rr.PolicyGroupToIptablesChains(pg))
+				}
+				if dir == 0 {
+					tg.IngressPolicies = append(tg.IngressPolicies, pg)
+				} else {
+					tg.EgressPolicies = append(tg.EgressPolicies, pg)
+				}
+			}
+		}
+		if len(tg.IngressPolicies)+len(tg.EgressPolicies) > 0 {
+			tpg = append(tpg, tg)
+		}
+	}
+	var profIDs []string
+	if hasProfile {
+		profIDs = []string{"prof1"}
+		pp := &proto.Profile{}
+		for _, r := range prof {
+			pp.InboundRules = append(pp.InboundRules, r.proto())
+			pp.OutboundRules = append(pp.OutboundRules, r.proto())
+		}
+		in, out := rr.ProfileToIptablesChains(&types.ProfileID{Name: "prof1"}, pp, 4)
+		add([]*generictables.Chain{in, out})
+	}
+	add(rr.WorkloadEndpointToIptablesChains("cali1234", nil, true, tpg, profIDs, nil))
+
+	for dir := 0; dir < 2; dir++ {
+		p := vNewPkt()
+		verifAssume(p.mark&0x800 == 0)
+		// the from-endpoint chain first drops encapsulated traffic from workloads; not the subject here
+		verifAssume(p.proto == 6)
+		sets := &vSets{m: map[string]bool{}}
+		want := verifRefVerdict(dirTiers[dir], prof, hasProfile, p)
+		pfx := WorkloadToEndpointPfx
+		if dir == 1 {
+			pfx = WorkloadFromEndpointPfx
+		}
+		v := vEvalRules(cm[EndpointChainName(pfx, "cali1234", iptables.MaxChainNameLength)], p, sets, cm, 0)
+		allowed := v == vReturn && p.mark&0x80 != 0
+		denied := v == vDrop
+		verifAssert("directions/decides", allowed || denied)
+		verifAssert("directions/verdict-equals-reference", allowed == want)
+	}
+}
